@@ -296,7 +296,7 @@ def k2_requires_lock(R, rule, G, res, callee, lock_of, min_sites=1, allow_cond=F
                     min_sites=min_sites, what='call of ' + callee)
 
 
-def k3_field_guarded(R, rule, prog, funcs, field, lock_of, exceptions=None, min_sites=1, inline=(), extra_trackers=(), accept=None):
+def k3_field_guarded(R, rule, prog, funcs, field, lock_of, exceptions=None, min_sites=1, inline=(), extra_trackers=(), accept=None, inline_lambda_args=()):
     """Every access to `field` (qualified) in the given functions happens with lock_of(base path) held.
     exceptions: {function nname: reason}."""
     exceptions = exceptions or {}
@@ -308,10 +308,9 @@ def k3_field_guarded(R, rule, prog, funcs, field, lock_of, exceptions=None, min_
         if f.nname in exceptions or f.name in exceptions:
             R.exception(rule, '%s in %s' % (field, f.nname), exceptions.get(f.nname) or exceptions.get(f.name))
             continue
-        if f.kind == 'lambda':
-            # analysed spliced into its parent when the parent is in the set; otherwise standalone
-            pass
-        G = build_f(R, prog, f, inline=inline)
+        if f.kind == 'lambda' and inline_lambda_args:
+            continue      # analysed spliced into its parent (lambda passed to a function that runs it under the caller's locks)
+        G = build_f(R, prog, f, inline=inline, lambda_args=inline_lambda_args)
         res = an.run(G, [an.LockTracker()] + list(extra_trackers))
         for nid, idx, ev, states in res.at(lambda ev: ev.kind == 'member' and ev.e.get('field') == field):
             n += 1
@@ -327,7 +326,7 @@ def k3_field_guarded(R, rule, prog, funcs, field, lock_of, exceptions=None, min_
             else:
                 R.held(rule, key, f.id, ev.loc(), 'access to %s under %s' % (ev.show(), ' | '.join(lps)), nontrivial=bool(states))
     if n < min_sites:
-        raise AnalysisBroken('%s: expected >= %d accesses of %s, found %d' % (rule, min_sites, field, n))
+        R.broken.append('%s: expected >= %d accesses of %s, found %d' % (rule, min_sites, field, n))
     return n
 
 
@@ -360,7 +359,7 @@ def k9_who_writes(R, rule, prog, field, allowed, min_sites=1, funcs=None):
                 n += 1
                 R.held(rule, '%s:%s:init(%s)' % (rule, f.nname, field.split('::')[-1]), f.id, ev.loc(), 'ctor initialiser', nontrivial=False)
     if n < min_sites:
-        raise AnalysisBroken('%s: expected >= %d writes of %s, found %d' % (rule, min_sites, field, n))
+        R.broken.append('%s: expected >= %d writes of %s, found %d' % (rule, min_sites, field, n))
     return n
 
 
@@ -387,7 +386,7 @@ def k9_who_calls(R, rule, prog, callee, allowed, min_sites=1, funcs=None, includ
         if hit:
             R.functions.add(f.id)
     if n < min_sites:
-        raise AnalysisBroken('%s: expected >= %d references of %s, found %d' % (rule, min_sites, callee, n))
+        R.broken.append('%s: expected >= %d references of %s, found %d' % (rule, min_sites, callee, n))
     return n
 
 
